@@ -337,8 +337,13 @@ func runMerkle(s *Session, ops []merkleOp) {
 				if got.Len() < op.short && s.anyFault() {
 					// the stream ended early on a leaf boundary: the root of a stream is the
 					// root of what it held
-					if bytes.HasPrefix(payload[i], got.Bytes()) && got.Len()%64 == 0 && got.Len() > 0 && gotRoot != refRootOfData(got.Bytes()) {
-						bad("reader-root", "streaming root of a stream that ended after %d bytes = %v, plain Merkle tree = %v", got.Len(), gotRoot, refRootOfData(got.Bytes()))
+					held := got.Bytes()
+					if op.short == rhp4.SectorSize && mode == 1 {
+						// (ReadSectorRoot reads a sector: what did not arrive counts as zeros)
+						held = append(append([]byte(nil), held...), make([]byte, rhp4.SectorSize-len(held))...)
+					}
+					if bytes.HasPrefix(payload[i], got.Bytes()) && got.Len()%64 == 0 && got.Len() > 0 && gotRoot != refRootOfData(held) {
+						bad("reader-root", "streaming root of a stream that ended after %d bytes = %v, plain Merkle tree = %v", got.Len(), gotRoot, refRootOfData(held))
 					}
 					e.inc("merkle.stream-ended-on-leaf-boundary")
 					return
